@@ -29,6 +29,7 @@ func Cell(raw []byte, off int, typ byte, meta uint16, unsigned bool) (txt []byte
 // CheckCell decodes raw (at offsets 0 and 3) and compares with the expected
 // text and consumed length; it returns "" or a description of the mismatch.
 func CheckCell(raw []byte, typ byte, meta uint16, unsigned bool, want []byte) string {
+	var first []byte
 	for _, off := range []int{0, 3} {
 		txt, n, err, pan := Cell(raw, off, typ, meta, unsigned)
 		switch {
@@ -40,6 +41,20 @@ func CheckCell(raw []byte, typ byte, meta uint16, unsigned bool, want []byte) st
 			return fmt.Sprintf("consumed %d bytes, the value has %d (offset %d)", n, len(raw), off)
 		case !bytes.Equal(txt, want):
 			return fmt.Sprintf("decoded %q, expected %q (offset %d)", Clip(txt), Clip(want), off)
+		}
+		if off == 0 {
+			first = txt
+			continue
+		}
+		// the two decodes used two private input buffers: overwriting what the
+		// second one returned (including its spare capacity) must not change
+		// what the first one returned (no shared scratch / pooled buffer)
+		full := txt[:cap(txt)]
+		for i := range full {
+			full[i] = 0xA5
+		}
+		if !bytes.Equal(first, want) {
+			return fmt.Sprintf("value changed after a later decode was overwritten: now %q, was %q (decoded values share memory)", Clip(first), Clip(want))
 		}
 	}
 	return ""
